@@ -122,9 +122,9 @@ def families(tier):
         main = [('disp', 'A', 'P', 'ff'), ('pause',), ('disp', 'A', 'P', 'ff')]
         add('c01.nested_concurrent', f'{a_shape}-c{c_bus}-g{g_bus}-{aw}', scn(buses, hs, main, [actor]), aw=aw)
     # --- family 6: parallel_handlers bus: one handler awaits a child (two handlers, serial other bus / same bus) while its sibling returns, raises or dispatches
-    for sib, cbus, csh in itertools.product(['raise', 'pause_raise', 'ret', 'pause', 'c2_ff', 'c2_aw'], 'AB', ['pause_ret', 'ret_pause']):
+    for sib, cbus, csh in itertools.product(['raise', 'pause_raise', 'pause_raise_timeout', 'ret', 'pause', 'c2_ff', 'c2_aw'], 'AB', ['pause_ret', 'ret_pause']):
         c1, c2 = ([('pause',), ('ret', 1)], [('ret', 2)]) if csh == 'pause_ret' else ([('ret', 1)], [('pause',), ('ret', 2)])
-        hB = {'raise': [('raise', 'ValueError')], 'pause_raise': [('pause',), ('raise', 'Custom')], 'ret': [('ret', 0)], 'pause': [('pause',)],
+        hB = {'raise': [('raise', 'ValueError')], 'pause_raise': [('pause',), ('raise', 'Custom')], 'pause_raise_timeout': [('pause',), ('raise', 'TimeoutError')], 'ret': [('ret', 0)], 'pause': [('pause',)],
               'c2_ff': [('pause',), ('disp', cbus, 'G', 'ff')], 'c2_aw': [('pause',), ('disp', cbus, 'G', 'await')]}[sib]
         hs = [dict(bus='A', pat='P', name='hA', prog=[('disp', cbus, 'C', 'await'), ('ret', 'a')]), dict(bus='A', pat='P', name='hB', prog=hB),
               dict(bus=cbus, pat='C', name='hc1', prog=c1), dict(bus=cbus, pat='C', name='hc2', prog=c2), dict(bus=cbus, pat='G', name='hg', prog=[('pause',)]),
